@@ -6,8 +6,9 @@
    boolean operators, calls, subscripts, displays, comprehensions, lambda, conditional expressions, f-strings, statements,
    float formatting, token spacing) is decided by the strict round-trip oracle only: see DESIGN 5.2. *)
 From Coq Require Import String.
-From PM Require Import Model.Base Model.SyntaxBase Gen.PrecTable Model.Syntax Proofs.SyntaxProofs Model.IntLit Proofs.IntLitProofs Model.PipelineBase Gen.Pipeline Gen.TokenRules.
+From PM Require Import Model.Base Model.SyntaxBase Gen.PrecTable Model.Syntax Proofs.SyntaxProofs Model.IntLit Proofs.IntLitProofs Model.MiniString Proofs.MiniStringProofs Model.StrDecode Proofs.StrDecodeProofs Model.PipelineBase Gen.Pipeline Gen.TokenRules.
 Open Scope bool_scope.
+Open Scope nat_scope.
 
 Theorem C02_roundtrip_operator_core : forall e,
   exists n, forall fuel, fuel >= n -> pexpr fuel 0 (pr e) = Some (e, []).
@@ -51,3 +52,23 @@ Example C02_example :
   = [TLP; TOp Sub; TName 1; TOp Pow; TOp Sub; TName 2; TRP; TOp Pow; TName 3; TOp Mult; TLP; TName 4; TOp SyntaxBase.Add; TName 5; TRP]%N /\
   pexpr 40 0 (pr (EUn Not (EBin (EName 1) BitOr (EBin (EName 2) BitXor (EName 3)))))%N = Some (EUn Not (EBin (EName 1) BitOr (EBin (EName 2) BitXor (EName 3))), [])%N.
 Proof. vm_compute. split; reflexivity. Qed.
+
+(* string constants: what MiniString writes between the quotes (Model/MiniString.v, compared with ministring.py by leg D and
+   by the leg of C12), followed by the closing quote(s) and ANY further text, is read back by the reference decoder
+   (Model/StrDecode.v: the escape rules of the Python lexical analysis as a state machine, compared with CPython by leg D) as
+   exactly the original string, leaving exactly the text that followed - for every string of code points, both quote
+   characters, normal and safe (ASCII-only) mode, short and triple-quoted form *)
+Theorem C02_string_literal_roundtrip_short : forall safe q s rest, is_quote q -> Forall code_point s ->
+  decode_short q (to_short safe q s ++ q :: rest) = Some (s, rest).
+Proof. exact to_short_decodes. Qed.
+Print Assumptions C02_string_literal_roundtrip_short.
+Theorem C02_string_literal_roundtrip_long : forall safe q s rest, is_quote q -> Forall code_point s ->
+  decode_long q (to_long safe q s ++ q :: q :: q :: rest) = Some (s, rest).
+Proof. exact to_long_decodes. Qed.
+Print Assumptions C02_string_literal_roundtrip_long.
+(* non-vacuity: quote, backslash, newline, NUL, CR, a Latin-1 letter, a CJK character and an emoji, in safe mode *)
+Example C02_string_example :
+  let s := [39; 92; 10; 0; 13; 233; 20013; 128512; 34]%N in
+  Forall code_point s /\ decode_short 39%N (to_short true 39%N s ++ [39; 43]%N) = Some (s, [43]%N)
+  /\ to_short true 39%N s = [92;39; 92;92; 92;110; 92;120;48;48; 92;114; 92;117;48;48;101;57; 92;117;52;101;50;100; 92;85;48;48;48;49;102;54;48;48; 34]%N.
+Proof. cbv zeta. split; [repeat constructor|]. split; vm_compute; reflexivity. Qed.
